@@ -15,7 +15,7 @@ RULE = ('seeded generator: nanometre spectra with 2..40 samples on uniform and n
         'distinct = distinct (grid hash, operation, arguments | operation sequence) descriptors; non-trivial = spectrum with '
         '> 2 samples.')
 ASSUMPTIONS = ['unitless (valueunit None) spectra stored in m / um / nm / angstrom; editing histories in nm',
-               'all-zero spectra under preserve_power (0/0) are not generated',
+               'the spectrum\'s integral is that of its piecewise-linear interpolant, evaluated independently (bounds may fall between samples)',
                "Simpson's rule is exercised only with uniformly spaced centres and data, as the property scopes it"]
 PLAN = {'quick': {'gen': 8}, 'thorough': {'gen': 16, 'tests': 1, 'docs': 1}}
 REQUIRED_BUCKETS = ['bin:narrow-line', 'crop:outside-data', 'bin:integer-centres', 'values:small-int', 'bin:zero-spectrum', 'integrate:bright-band-below-bounds', 'wave:integer-dtype', 'unit:m', 'unit:um', 'unit:nm', 'unit:angstrom', 'bin:unit-same', 'bin:unit-differs', 'integrate:trapz', 'integrate:simps', 'bin:trapz', 'bin:simps', 'ends:symmetric', 'ends:inside',
